@@ -234,6 +234,10 @@ def run(prog, chk):
             X + "parseElement": {"min_advance": 1}}
     rt, sk, pt, pa, pe = xfn(prog, X + "readToken"), xfn(prog, X + "skipSpace"), xfn(prog, X + "parseText"), xfn(prog, X + "parse", 2), xfn(prog, X + "parseElement")
     prolog_token_start(chk, "C16.g", pa)
+    look_behind(prog, chk, "C16.i", ("Xml.cpp",))
+    chk.rule("C16.h", "MPT: every cursor / line field the tokenizer advances is set again in Private::parse before the first tokenizer call (a Parser is reused across documents)", floor=2)
+    from .server_common import parser_entry_resets
+    parser_entry_resets(prog, chk, "C16.h", "Xml::Private", "Xml.cpp")
     for f, nm in ((rt, "readToken"), (sk, "skipSpace"), (pt, "parseText"), (pa, "parse")):
         ca = CursorAnalysis(f, ["this->pos.pos", "end"], summ, "this->pos")
         extra = set()
@@ -436,3 +440,51 @@ def prolog_token_start(chk, rid, pa):
                     "after `%s` the processing-instruction test is evaluated again without skipSpace(): white space, a line break or a comment "
                     "between two processing instructions ends the prolog early and the second `<?...?>` is parsed as the root element" % pa.r(s.node)[:40],
                     pa.path_lines(p))
+
+
+def look_behind(prog, chk, rid, files=("Xml.cpp", "Json.cpp")):
+    """CUR: a scan result `p = findOneOf(origin, ...)` satisfies p >= origin and nothing more; reading p[-n] looks at bytes in front of
+    the scan origin (already consumed as part of another token, e.g. the `<!--` opener) unless a dominating test establishes
+    p - origin >= n"""
+    chk.rule(rid, "CUR: no look-behind past the scan origin: p[-n] on a pointer returned by a forward search from `origin` needs a dominating "
+                  "test that p lies at least n bytes behind `origin`", floor=0)
+    n_sites = 0
+    for f in [f for f in prog.functions.values() if any(f.file.endswith(x) for x in files)]:
+        defs = q.local_defs(f)
+        for i, n in enumerate(f.nodes):
+            if n["k"] != "ArraySubscriptExpr" or f.node_pos(i) is None:
+                continue
+            idx = fin.eval_expr(f, n["c"][1], {})
+            if idx is None or idx >= 0:
+                continue
+            b = f.nodes[f.strip(n["c"][0])]
+            if b["k"] != "DeclRefExpr" or b["ref"].get("dk") != "local":
+                continue
+            rd = q.reaching_def(f, b["ref"]["id"], i, defs) or q.single_def(f, b["ref"]["id"], defs)
+            if rd is None:
+                continue
+            cn = f.nodes[f.strip(rd)]
+            if cn["k"] != "CallExpr" or not re.search(r"find", cn.get("callee", "")) or not q.call_args(f, f.strip(rd)):
+                continue
+            n_sites += 1
+            origin = q.no_casts(f.r(q.call_args(f, f.strip(rd))[0]))
+            p = b["ref"]["n"]
+            rel = fin.relations(f, f.node_pos(i), render=lambda x: q.no_casts(f.r(x)))
+            need = -idx
+            ok = any((l == "(%s + %d)" % (origin, k) and r == p and ((op == "<=" and k >= need) or (op == "<" and k >= need - 1))) or
+                     (r == "(%s - %s)" % (p, origin) and op in ("<=", "<") and fin_const(l) is not None and fin_const(l) + (1 if op == "<" else 0) >= need)
+                     for (l, op, r) in rel for k in range(0, 8))
+            if ok:
+                chk.ok(rid, f, "%s[%d] with %s - %s >= %d established" % (p, idx, p, origin, need), f.where(i), "dominating comparison", evals=2)
+            else:
+                chk.bad(rid, f, "look-behind-past-scan-origin:%s[%d]" % (p, idx), f.where(i),
+                        "`%s` was found by a forward search from `%s`; `%s[%d]` may lie in front of that origin (bytes already consumed, e.g. the "
+                        "dashes of a `<!--` opener are taken for the dashes of `-->`)" % (p, origin, p, idx))
+    chk.extra["look_behind_sites"] = n_sites
+
+
+def fin_const(t):
+    try:
+        return int(t)
+    except Exception:
+        return None
